@@ -578,6 +578,13 @@ def work_items(tier, seed, parts):
         whole = [(1, 0), (359, 0), (179, 0), (181, 0), (1, 1), (359, -1)]
         for st in datasets(whole, 2):
             items.append(dict(part="modes", stations=st, layout="site/int"))
+    if want("cluster"):
+        # nearshore clusters: stations less than 1e-3 degree apart (closer than a relative float tolerance on the longitude value)
+        clusters = [((359.5, 0), (359.5008, 0)), ((150.0, 0), (150.0008, 0)), ((180.5, 0), (180.5008, 0.0004)), ((0.5, 0), (0.5002, 0), (0.5004, 0))]
+        for cl in clusters:
+            for order in (cl, cl[::-1]):
+                for conv in ("360", "180"):
+                    items.append(dict(part="cluster", stations=express_stations(tuple((float(a), float(b)) for a, b in order), conv)))
     items.sort(key=lambda it: len(it["stations"]))
     return items, M
 
@@ -615,6 +622,16 @@ def cases_of(item, M):
                         continue
                     yield dict(base, method="nearest", qlons=ql, qlats=qa, tolerance=tol, unique=unique, exact=exact,
                                missing=missing, mode="direct" if unique else "accessor")
+    elif part == "cluster":
+        # queries exactly on every cluster member and 1e-4 degree east of it, in both conventions, nearest and idw
+        pts_c = []
+        for (lo, la) in st:
+            lo360 = lo % 360
+            pts_c += [(lo360, la), ((lo360 + 1e-4) % 360, la)]
+        for ql, qa in query_lists(pts_c, pairs=False, dups=False):
+            for mode in ("accessor", "direct"):
+                yield dict(base, method="nearest", qlons=ql, qlats=qa, tolerance=0.5, mode=mode)
+            yield dict(base, method="idw", qlons=ql, qlats=qa, tolerance=0.5, max_sites=2, mode="accessor")
     elif part == "modes":
         for mode in ("accessor", "accessor_pre", "direct"):
             if mode == "accessor" and base["layout"] == "site":
